@@ -798,6 +798,114 @@ def geom_case_json(case):
     return dict(kind="geometry", w=w, h=h, sub=None if sub is None else list(sub), probes=[list(p) for p in probes])
 
 
+
+# ------------------------------------------------------------------ ImageLoader.create_from_args (Model/LoaderArgs.v)
+
+COQ_DEFS_L = r"""
+Record lcase := mkLC { lc_b2t : bool; lc_csp : Z; lc_psd : bool; lc_crop : option (list Z);
+                       lc_ok : bool; lc_new : loader_opts; lc_w : Z; lc_h : Z; lc_size : Z * Z }.
+Definition optl_eqb (a b : option (list Z)) : bool :=
+  match a, b with
+  | None, None => true
+  | Some x, Some y => (Nat.eqb (length x) (length y)) && forallb (fun p => Z.eqb (fst p) (snd p)) (combine x y)
+  | _, _ => false
+  end.
+(* 0 agree; 1 accepted/rejected; 2 options of the new loader; 3 crop of the new loader; 4 size of the loaded image *)
+Definition chk_loader (c : lcase) : nat :=
+  match create_from_args class_defaults (lc_b2t c) (lc_csp c) (lc_psd c) (lc_crop c) with
+  | None => if lc_ok c then 1%nat else 0%nat
+  | Some (n, _) =>
+      if negb (lc_ok c) then 1%nat
+      else if negb (Bool.eqb (lo_b2t n) (lo_b2t (lc_new c)) && Z.eqb (lo_csp n) (lo_csp (lc_new c)) && Bool.eqb (lo_psd n) (lo_psd (lc_new c))) then 2%nat
+      else if negb (optl_eqb (lo_crop n) (lo_crop (lc_new c))) then 3%nat
+      else match lo_crop n with
+           | Some cr => let '(a, b) := cropped_size (lc_w c) (lc_h c) cr in
+                        if Z.eqb a (fst (lc_size c)) && Z.eqb b (snd (lc_size c)) then 0%nat else 4%nat
+           | None => if Z.eqb (lc_w c) (fst (lc_size c)) && Z.eqb (lc_h c) (snd (lc_size c)) then 0%nat else 4%nat
+           end
+  end.
+"""
+
+CSP = ["srgb", "none"]
+
+
+def loader_args_part(ctx, V):
+    """The real ImageLoader.create_from_args on argparse namespaces (valid and malformed --crop), then
+    load_pil on a small image: accepted/rejected, the new loader's options, the size of what was loaded,
+    and the class attributes of ImageLoader before and after, against Model/LoaderArgs.v."""
+    import argparse
+    import numpy as np
+    from PIL import Image as PILImage
+    from toasty.image import ImageLoader
+    rng = common.rng_for(ctx["seed"], "C08-loader")
+    n = 150 if ctx["tier"] == "quick" else 800
+
+    def g_z(z):
+        return f"{z}" if z >= 0 else f"({z})"
+
+    def class_state():
+        return {k: getattr(ImageLoader, k) for k in ("black_to_transparent", "colorspace_processing", "crop", "psd_single_layer")}
+
+    cases, terms, leaks = [], [], []
+    fixed = [[3, 20], [20, 3], [0], [7], [1, 2, 3, 4], [1, 2, 3], [], [-1, 2], [5, 5], [0, 0, 0, 9]]
+    for i in range(n):
+        if i < len(fixed):
+            crop = fixed[i]
+        else:
+            k = rng.choice([1, 1, 2, 2, 2, 4, 4, 3, 5, 0])
+            crop = [rng.randint(0, 12) if rng.random() < 0.93 else -rng.randint(1, 5) for _ in range(k)]
+        use_crop = rng.random() < 0.85 or i < len(fixed)
+        b2t, psd, csp = rng.random() < 0.5, rng.random() < 0.5, rng.randint(0, 1)
+        w, h = rng.randint(50, 90), rng.randint(50, 90)      # larger than twice any crop generated here
+        text = ",".join(str(c) for c in crop) if use_crop else None
+        if use_crop and not crop:
+            text = ""
+        before = class_state()
+        ns = argparse.Namespace(black_to_transparent=b2t, colorspace_processing=CSP[csp], psd_single_layer=psd, crop=text)
+        ok, new, size = True, None, (0, 0)
+        try:
+            ld = ImageLoader.create_from_args(ns)
+            new = (bool(ld.black_to_transparent), CSP.index(ld.colorspace_processing), bool(ld.psd_single_layer),
+                   None if ld.crop is None else [int(c) for c in ld.crop])
+        except Exception:
+            ok = False
+        if ok:
+            try:
+                img = ld.load_pil(PILImage.fromarray(np.full((h, w, 3), 200, dtype=np.uint8)))
+                size = (int(img.width), int(img.height))
+            except Exception:
+                size = (-1, -1)
+        after = class_state()
+        fresh = ImageLoader()
+        fresh_state = {k: getattr(fresh, k) for k in before}
+        case = dict(kind="loader-args", crop=text, b2t=b2t, psd=psd, csp=CSP[csp], w=w, h=h)
+        if after != before or fresh_state != before:
+            leaks.append((case, before, after))
+            for k, v in before.items():
+                setattr(ImageLoader, k, v)
+        gcrop = "None" if text is None else "(Some " + g_list([g_z(c) for c in crop]) + ")"
+        if new is None:
+            gnew = "class_defaults"
+        else:
+            gnew = (f"(mkLO {g_bool(new[0])} {new[1]} {g_bool(new[2])} " +
+                    ("None" if new[3] is None else "(Some " + g_list([g_z(c) for c in new[3]]) + ")") + ")")
+        terms.append(f"(mkLC {g_bool(b2t)} {csp} {g_bool(psd)} {gcrop} {g_bool(ok)} {gnew} {w} {h} ({g_z(size[0])}, {g_z(size[1])}))")
+        cases.append((case, ok, new, size))
+    bad = common.coq_eval_sharded("Local Open Scope Z_scope.\n" + COQ_DEFS_L, terms, "chk_loader", ["Model.LoaderArgs"], shard=400, jobs=2, name="c08l")
+    rel = {1: "--crop accepted / rejected", 2: "options of the new loader", 3: "crop of the new loader (top, right, bottom, left)",
+           4: "size of the image load_pil returns"}
+    for i, code in sorted(bad.items())[:3]:
+        case, ok, new, size = cases[i]
+        V.disagreement("LoaderArgs.v ~ ImageLoader.create_from_args / load_pil: " + rel.get(code, str(code)), case,
+                       "the model's loader", dict(accepted=ok, new_loader=new, loaded_size=size), code in (3, 4))
+    for case, before, after in leaks[:2]:
+        V.disagreement("loader_options_do_not_touch_the_class (C08.v) on the implementation: ImageLoader.create_from_args changed the class attributes",
+                       case, repr(before), repr(after), True)
+    return dict(loader_args_cases=len(cases), loader_args_rejected=sum(1 for c in cases if not c[1]),
+                loader_args_two_value=sum(1 for c in cases if c[0]["crop"] and c[0]["crop"].count(",") == 1),
+                loader_args_disagreements=len(bad), loader_class_leaks=len(leaks))
+
+
 def run(ctx, V):
     rng = common.rng_for(ctx["seed"], "C08")
     tier = ctx["tier"]
@@ -848,7 +956,8 @@ def run(ctx, V):
     pix_nontrivial = stats.pop("nontrivial")
 
     samples = [geom_case_json(c) for c in (gcases[n_exh], gcases[-60], gcases[-1])] + [pixel_case_json(pcases[0])]
-    return dict(evaluations=len(gcases) + len(pcases),
+    loader = loader_args_part(ctx, V)
+    return dict(evaluations=len(gcases) + len(pcases) + loader["loader_args_cases"], loader_args=loader,
                 distinct_nontrivial=len(nontrivial) + len(pix_nontrivial),
                 rule="geometry: all pairs of sizes around 128..4097 boundaries, every width 1..2100 x heights "
                      "{1,255,256,257,513,1025} and transposes (thorough; a random half-grid to 1100 in quick), random sizes to 2^40 "
